@@ -13,6 +13,10 @@ def sweep(tier="quick", seed=0, unsupported=()):
 
 
 def replay(contract, label, model, note=""):
+    if contract.startswith("Conv2D.layouts"):
+        from . import connections as _cx
+
+        return _cx.replay_layouts(model)
     f, n = tr.sweep_c08("quick", 0)
     f = [x for x in f if x["what"].startswith("C08/")]
     if f:
